@@ -45,6 +45,13 @@ pub fn case_json(zp: u64, chunks: &[Chunk], hint: Option<u64>) -> Value {
     })
 }
 
+/// A case found by an exploration that continues on a clone of the generator at every branching point (chunk start).
+pub fn case_json_cloning(zp: u64, chunks: &[Chunk], hint: Option<u64>) -> Value {
+    let mut c = case_json(zp, chunks, hint);
+    c["clone_each_step"] = json!(true);
+    c
+}
+
 pub fn start_generator(zp: u64) -> Generator {
     if zp == 0 {
         Generator::new()
@@ -96,31 +103,41 @@ fn run_case_unguarded(c: &Value) -> Result<(), String> {
     };
     let mut r = Ctph::new(zp);
     let mut hint = hint;
-    if let Some(h) = hint {
-        let before = format!("{:?}", g);
-        match guarded(|| g.set_fixed_input_size(h)).map_err(|p| format!("panic in set_fixed_input_size: {}", p))? {
-            Ok(()) => {
-                if h > refmodel::MAX_INPUT_SIZE {
-                    return Err(format!("declared size {} above the limit was accepted", h));
-                }
-                // a second, different declaration is refused and must change nothing (see C13)
-                if h > 16 && c["dirty_start"].as_u64().unwrap_or(0) == 0 && c["dirty_start"].as_bool() != Some(true) {
-                    let r2 = guarded(|| g.set_fixed_input_size(h / 4096)).map_err(|p| format!("panic: {}", p))?;
-                    if r2 != Err(ssdeep::GeneratorError::FixedSizeMismatch) {
-                        return Err(format!("second declaration {} after {} returned {:?}", h / 4096, h, r2));
+    // the declaration happens before the chunk with this index (0 = first, the default)
+    let declare_before = c["declare_after"].as_u64().unwrap_or(0) as usize;
+    let clone_each_step = c["clone_each_step"].as_bool().unwrap_or(false);
+    let dirty_case = c["dirty_start"].as_u64().unwrap_or(0) != 0 || c["dirty_start"].as_bool() == Some(true);
+    let declare = |g: &mut Generator, hint: &mut Option<u64>| -> Result<(), String> {
+        if let Some(h) = *hint {
+            let before = format!("{:?}", g);
+            match guarded(|| g.set_fixed_input_size(h)).map_err(|p| format!("panic in set_fixed_input_size: {}", p))? {
+                Ok(()) => {
+                    if h > refmodel::MAX_INPUT_SIZE {
+                        return Err(format!("declared size {} above the limit was accepted", h));
+                    }
+                    // a second, different declaration is refused and must change nothing (see C13)
+                    if h > 16 && !dirty_case {
+                        let r2 = guarded(|| g.set_fixed_input_size(h / 4096)).map_err(|p| format!("panic: {}", p))?;
+                        if r2 != Err(ssdeep::GeneratorError::FixedSizeMismatch) {
+                            return Err(format!("second declaration {} after {} returned {:?}", h / 4096, h, r2));
+                        }
                     }
                 }
-            }
-            Err(e) => {
-                if h <= refmodel::MAX_INPUT_SIZE || e != ssdeep::GeneratorError::FixedSizeTooLarge {
-                    return Err(format!("declared size {} refused with {:?}", h, e));
+                Err(e) => {
+                    if h <= refmodel::MAX_INPUT_SIZE || e != ssdeep::GeneratorError::FixedSizeTooLarge {
+                        return Err(format!("declared size {} refused with {:?}", h, e));
+                    }
+                    if format!("{:?}", g) != before {
+                        return Err(format!("refused declaration {} changed the generator", h));
+                    }
+                    *hint = None; // refused: the generator must behave as if nothing was declared
                 }
-                if format!("{:?}", g) != before {
-                    return Err(format!("refused declaration {} changed the generator", h));
-                }
-                hint = None; // refused: the generator must behave as if nothing was declared
             }
         }
+        Ok(())
+    };
+    if declare_before == 0 {
+        declare(&mut g, &mut hint)?;
     }
     let chunks = c["chunks"].as_array().ok_or("chunks")?;
     let total: u64 = zp.saturating_add(
@@ -132,7 +149,14 @@ fn run_case_unguarded(c: &Value) -> Result<(), String> {
             })
             .sum::<u64>(),
     );
-    for ch in chunks {
+    for (chunk_index, ch) in chunks.iter().enumerate() {
+        if chunk_index == declare_before && declare_before != 0 {
+            declare(&mut g, &mut hint)?;
+        }
+        if clone_each_step {
+            // the exploration that found this case continues on a clone of the generator after every step
+            g = guarded(|| g.clone()).map_err(|p| format!("panic in clone: {}", p))?;
+        }
         if let Some(n) = ch["skip_zeros"].as_u64() {
             // in-place zero skip (hook H1); only valid when the last 7 bytes were zero
             if r.roll_value() != 0 {
@@ -149,7 +173,7 @@ fn run_case_unguarded(c: &Value) -> Result<(), String> {
             guarded(|| feed(&mut g, &word, form)).map_err(|p| format!("panic in update: {}", p))?;
             r.feed_all(&word);
             // with a hint, intermediate finalisations legitimately fail; compare at the end only
-            if hint.is_none() || r.size() == total {
+            if hint.is_none() || r.size() == total || chunk_index < declare_before {
                 if let Some(m) = mismatch_hint(&g, &r, hint) {
                     return Err(format!("after {} x{} ({}): {}", hex(&word[..word.len().min(16)]), i + 1, form_name(form), m));
                 }
@@ -334,6 +358,7 @@ pub fn run(ctx: &Ctx) -> Report {
             if let Some(m) = step(&mut g2, &mut r2, word, form, acc) {
                 let mut c = case_json(zp, path, None);
                 c["dirty_start"] = json!(dirty);
+                c["clone_each_step"] = json!(true);
                 acc.violation(format!("{}{}", sig("S1", zp, path, &|w| env.name(w)), if dirty > 0 { " reused-generator" } else { "" }), m, c);
             } else {
                 if dirty == 0 {
@@ -358,7 +383,7 @@ pub fn run(ctx: &Ctx) -> Report {
     // ------------------------------------------------------------ S1h: total size declared first, then all pairs x last form
     // (the declaration must not change the hash, whichever update form delivers the last byte)
     {
-        let starts: Vec<u64> = vec![0, 113];
+        let starts: Vec<u64> = vec![0, 113, 5000, (192u64 << 5) - 10, (192u64 << 12) - 9, (192u64 << 30) - 14];
         let acc = par_shards(starts.len() * na, |i, acc| {
             let zp = starts[i / na];
             let a = &env.alpha[i % na];
@@ -367,11 +392,15 @@ pub fn run(ctx: &Ctx) -> Report {
                     let f1 = FORMS[(k + i) % FORMS.len()];
                     let chunks = vec![Chunk { word: a.1.clone(), count: 1, form: f1 }, Chunk { word: b.1.clone(), count: 1, form: f2 }];
                     let total = zp + (a.1.len() + b.1.len()) as u64;
-                    let c = case_json(zp, &chunks, Some(total));
-                    acc.evaluations += 1;
-                    acc.nontrivial += 1;
-                    if let Err(m) = run_case(&c) {
-                        acc.violation(format!("{} declared={} forms={}/{}", sig("S1h", zp, &chunks, &|w| env.name(w)), total, form_name(f1), form_name(f2)), m, c);
+                    // declared before anything is fed, and declared between the two chunks
+                    for late in [0u64, 1] {
+                        let mut c = case_json(zp, &chunks, Some(total));
+                        c["declare_after"] = json!(late);
+                        acc.evaluations += 1;
+                        acc.nontrivial += 1;
+                        if let Err(m) = run_case(&c) {
+                            acc.violation(format!("{} declared={} (before chunk {}) forms={}/{}", sig("S1h", zp, &chunks, &|w| env.name(w)), total, late, form_name(f1), form_name(f2)), m, c);
+                        }
                     }
                 }
             }
@@ -380,6 +409,49 @@ pub fn run(ctx: &Ctx) -> Report {
             }
         });
         acc.into_report(&mut rep, "S1h_total_declared_first_all_pairs_x_every_last_form");
+    }
+
+    // ------------------------------------------------------------ S1L: declarations around piece-rich data
+    // [W_k^m] [Z] [skip N zeros] [b]: the total is declared before chunk 0, 1, 2 or 3 (a refused smaller second
+    // declaration follows each accepted one); the data before the declaration has pieces at level k only, the
+    // zeros push the total over several block-size borders
+    {
+        let mut cases: Vec<Value> = vec![];
+        for k in [0usize, 1, 2, 5] {
+            for m in [31u64, 32, 33, 40, 64, 65, 70] {
+                for n in [0u64, 300, 1000, 5000, 100_000, 3_000_000] {
+                    for (bi, b) in [corpus::F.to_vec(), corpus::W[k].to_vec(), corpus::W[(k + 1) % 31].to_vec(), vec![1u8]].iter().enumerate() {
+                        for late in 0..4u64 {
+                            let form = FORMS[(k + m as usize + bi + late as usize) % FORMS.len()];
+                            let total = 7 * m + 7 + n + b.len() as u64;
+                            let mut chunks = vec![
+                                json!({"word": hex(&corpus::W[k]), "count": m, "form": form_name(form)}),
+                                json!({"word": hex(&corpus::Z), "count": 1, "form": "Slice"}),
+                            ];
+                            if n > 0 {
+                                chunks.push(json!({"skip_zeros": n}));
+                            }
+                            chunks.push(json!({"word": hex(b), "count": 1, "form": form_name(FORMS[(bi + late as usize) % FORMS.len()])}));
+                            if late as usize >= chunks.len() {
+                                continue;
+                            }
+                            cases.push(json!({"zero_prefix": 0, "hint": total, "declare_after": late, "chunks": chunks}));
+                        }
+                    }
+                }
+            }
+        }
+        let acc = par_shards(cases.len(), |i, acc| {
+            acc.evaluations += 1;
+            acc.nontrivial += 1;
+            if let Err(m) = run_case(&cases[i]) {
+                acc.violation(format!("S1L case {}", i), m, cases[i].clone());
+            }
+            if i == 7 {
+                acc.sample(cases[i].clone());
+            }
+        });
+        acc.into_report(&mut rep, "S1L_declarations_around_piece_rich_data");
     }
 
     // ------------------------------------------------------------ S2: run-structured sequences
@@ -417,7 +489,7 @@ pub fn run(ctx: &Ctx) -> Report {
         for c1 in 1..=maxc {
             let mut path = vec![Chunk { word: w1.clone(), count: c1, form: f1 }];
             if let Some(m) = step(&mut g, &mut r, w1, f1, acc) {
-                acc.violation(sig("S2", zp, &path, &|w| env.name(w)), m, case_json(zp, &path, None));
+                acc.violation(sig("S2", zp, &path, &|w| env.name(w)), m, case_json_cloning(zp, &path, None));
                 return;
             }
             if !counts.contains(&c1) {
@@ -438,7 +510,7 @@ pub fn run(ctx: &Ctx) -> Report {
                     path.truncate(1);
                     path.push(Chunk { word: w2.clone(), count: c2, form: f2 });
                     if let Some(m) = step(&mut g2, &mut r2, w2, f2, acc) {
-                        acc.violation(sig("S2", zp, &path, &|w| env.name(w)), m, case_json(zp, &path, None));
+                        acc.violation(sig("S2", zp, &path, &|w| env.name(w)), m, case_json_cloning(zp, &path, None));
                         ok = false;
                         break;
                     }
@@ -465,7 +537,7 @@ pub fn run(ctx: &Ctx) -> Report {
                                     acc.violation(
                                         sig("S2", zp, &path, &|w| env.name(w)),
                                         m,
-                                        case_json(zp, &path, None),
+                                        case_json_cloning(zp, &path, None),
                                     );
                                     break;
                                 }
@@ -509,7 +581,7 @@ pub fn run(ctx: &Ctx) -> Report {
             }
             if let Some(m) = res {
                 let p = vec![Chunk { word: bytes.clone(), count: 1, form: Form::Byte }];
-                acc.violation(format!("S3a bytes={}", hex(&bytes)), m, case_json(0, &p, None));
+                acc.violation(format!("S3a bytes={}", hex(&bytes)), m, case_json_cloning(0, &p, None));
                 return;
             }
         }
@@ -524,7 +596,7 @@ pub fn run(ctx: &Ctx) -> Report {
                 let form = FORMS[bytes.len() % FORMS.len()];
                 if let Some(m) = step(&mut g2, &mut r2, &[c], form, acc) {
                     let p = vec![Chunk { word: bytes.clone(), count: 1, form: Form::Byte }];
-                    acc.violation(format!("S3a bytes={}", hex(bytes)), m, case_json(0, &p, None));
+                    acc.violation(format!("S3a bytes={}", hex(bytes)), m, case_json_cloning(0, &p, None));
                 } else {
                     rec(&g2, &r2, bytes, l3, b3, acc);
                 }
